@@ -1406,7 +1406,9 @@ class LinearOperator(object):
         :return: The diagonal (or batch of diagonals) of :math:`\mathbf A`.
         """
 
-        if not offset == 0 and ((dim1 == -2 and dim2 == -1) or (dim1 == -1 and dim2 == -2)):
+        ndim = self.dim()
+        dims = {dim + ndim if dim < 0 else dim for dim in (dim1, dim2)}
+        if not (offset == 0 and dims == {ndim - 2, ndim - 1}):
             raise NotImplementedError(
                 "LinearOperator#diagonal is only implemented for when :attr:`dim1` and :attr:`dim2` are equal "
                 "to -2 and -1, respectfully, and :attr:`offset = 0`. "
